@@ -365,6 +365,7 @@ def run_check(prop: str, tier: str, master: int | None = None) -> int:
     exit_code = 0
     known_seen = []
     new_violations = []
+    noise_candidates: list[dict] = []
     for key, items in sorted(groups.items(), key=lambda kv: repr(kv[0])):
         items.sort(key=lambda t: t[0])
         seed, d, v = items[0]
@@ -379,6 +380,13 @@ def run_check(prop: str, tier: str, master: int | None = None) -> int:
         # new violation: confirm by replay, shrink, replay again
         res = replay_scenario(prop, d["scenario"], seed)
         if not any(_vkey(x) == key for x in res.get("violations", [])):
+            if getattr(mod, "NONREPRO_IS_NOISE", None) and mod.NONREPRO_IS_NOISE(v):
+                # a measurement-based candidate (C18: growth of the gc population that no named root explains) which a second,
+                # independent measurement of the same history does not show is noise of the measurement, not a finding and not
+                # a defect of the harness: growth with N is deterministic and would show again
+                noise_candidates.append({"clause": key[0], "key": key[1], "seed": seed})
+                print(f"NOTE: candidate {key} from seed {seed} did not show in a second measurement of the same history (measurement noise)", flush=True)
+                continue
             print(f"HARNESS-ERROR: violation {key} from seed {seed} did not reproduce on replay", flush=True)
             write_replay(prop, seed, d["scenario"], v, tag="_nonrepro")
             exit_code = max(exit_code, 3)
@@ -417,7 +425,7 @@ def run_check(prop: str, tier: str, master: int | None = None) -> int:
     ev_problem = None
     try:
         ev_problem = write_evidence(prop, tier, master, mod, agg, wall, known_seen, new_violations, n_herr, complete,
-                                    attempted, n_total, det)
+                                    attempted, n_total, det, noise_candidates)
     except Exception:  # noqa: BLE001
         traceback.print_exc()
         ev_problem = "evidence writer failed"
@@ -434,7 +442,7 @@ def run_check(prop: str, tier: str, master: int | None = None) -> int:
 
 
 def write_evidence(prop, tier, master, mod, agg: Aggregator, wall, known_seen, new_violations, n_herr, complete,
-                   attempted, n_total, det=None) -> str | None:
+                   attempted, n_total, det=None, noise_candidates=None) -> str | None:
     c = dict(agg.counters)
     sim_seconds = c.pop("sim_seconds", 0.0)
     faults = {k[len("fault."):]: int(v) for k, v in c.items() if k.startswith("fault.")}
@@ -460,6 +468,7 @@ def write_evidence(prop, tier, master, mod, agg: Aggregator, wall, known_seen, n
         "real_components": mod.REAL_COMPONENTS,
         "stub_components": mod.STUB_COMPONENTS,
         "known_findings_seen": known_seen,
+        "candidates_not_confirmed_by_second_measurement": noise_candidates or [],
         "new_violations": new_violations,
         "harness_errors": n_herr,
         "determinism_selftest": det or {},
